@@ -482,6 +482,15 @@ pub fn num(code: &str, params: &[&str]) -> ExpLine {
     }
 }
 
+/// A refusal for which several reasons apply at once: the statements do not rank
+/// the reasons, so at least one of the applicable numerics must be seen and any
+/// of the others may accompany it.
+pub fn refuse(e: &mut Exp, group: u32, lines: Vec<ExpLine>) {
+    for l in lines {
+        e.actor.push(l.one_of(group));
+    }
+}
+
 pub fn num_any(code: &str) -> ExpLine {
     ExpLine {
         prefix: None,
@@ -932,12 +941,15 @@ pub fn step(m: &M, cfg: &SpecCfg, actor: &Actor, line: &str) -> Option<Exp> {
                 return None;
             }
             let mut uniq = BTreeSet::new();
+            let mut grp = 2000u32;
             for chn in p[0].split(',') {
                 if !valid_chan_syntax(chn) || !uniq.insert(chn) {
                     return None;
                 }
+                grp += 1;
                 match e.next.chans.get(chn).cloned() {
-                    None => e.actor.push(num("403", &[chn])),
+                    // no such channel / not on that channel: both are true of a missing channel
+                    None => refuse(&mut e, grp, vec![num("403", &[chn]), num("442", &[chn])]),
                     Some(ch) => {
                         if !ch.members.contains_key(&me) {
                             e.actor.push(num("442", &[chn]));
@@ -975,20 +987,26 @@ pub fn step(m: &M, cfg: &SpecCfg, actor: &Actor, line: &str) -> Option<Exp> {
             }
             let ch = match m.chans.get(chn) {
                 None => {
-                    e.actor.push(num("403", &[chn]));
+                    refuse(&mut e, 1, vec![num("403", &[chn]), num("442", &[chn])]);
                     return Some(e);
                 }
                 Some(c) => c.clone(),
             };
+            // further reasons that hold at the same time may be named instead
+            let absent: Vec<ExpLine> = victims.iter().filter(|v| !ch.members.contains_key(**v)).map(|v| num("441", &[v, chn])).collect();
             let mine = match ch.members.get(&me) {
                 None => {
-                    e.actor.push(num("442", &[chn]));
+                    let mut r = vec![num("442", &[chn]), num("482", &[chn])];
+                    r.extend(absent);
+                    refuse(&mut e, 1, r);
                     return Some(e);
                 }
                 Some(x) => *x,
             };
             if !mine.ge_halfop() {
-                e.actor.push(num("482", &[chn]));
+                let mut r = vec![num("482", &[chn])];
+                r.extend(absent);
+                refuse(&mut e, 1, r);
                 return Some(e);
             }
             let only_half = !mine.ge_op();
@@ -996,7 +1014,13 @@ pub fn step(m: &M, cfg: &SpecCfg, actor: &Actor, line: &str) -> Option<Exp> {
             let mut grp = 1000u32;
             for v in &victims {
                 match ch.members.get(*v) {
-                    None => e.actor.push(num("441", &[v, chn])),
+                    None => {
+                        grp += 1;
+                        e.actor.push(num("441", &[v, chn]).one_of(grp));
+                        if !m.users.contains_key(*v) {
+                            e.actor.push(num("401", &[v]).one_of(grp));
+                        }
+                    }
                     Some(vm) => {
                         if vm.ge_protected() || (only_half && vm.ge_halfop()) {
                             // refused; the statement does not name the numeric
@@ -1052,7 +1076,7 @@ pub fn step(m: &M, cfg: &SpecCfg, actor: &Actor, line: &str) -> Option<Exp> {
             let chn = p[0].as_str();
             let ch = match m.chans.get(chn) {
                 None => {
-                    e.actor.push(num("403", &[chn]));
+                    refuse(&mut e, 1, vec![num("403", &[chn]), num("442", &[chn])]);
                     return Some(e);
                 }
                 Some(c) => c.clone(),
@@ -1072,7 +1096,13 @@ pub fn step(m: &M, cfg: &SpecCfg, actor: &Actor, line: &str) -> Option<Exp> {
                 }
                 Some(t) => {
                     match ch.members.get(&me) {
-                        None => e.actor.push(num("442", &[chn])),
+                        None => {
+                            let mut r = vec![num("442", &[chn])];
+                            if ch.ft {
+                                r.push(num("482", &[chn]));
+                            }
+                            refuse(&mut e, 1, r);
+                        }
                         Some(mine) => {
                             if ch.ft && !mine.ge_halfop() {
                                 e.actor.push(num("482", &[chn]));
@@ -1099,35 +1129,37 @@ pub fn step(m: &M, cfg: &SpecCfg, actor: &Actor, line: &str) -> Option<Exp> {
                 return None;
             }
             let (nick, chn) = (p[0].as_str(), p[1].as_str());
-            let ch = match m.chans.get(chn) {
-                None => {
-                    e.actor.push(num("403", &[chn]));
-                    return Some(e);
-                }
-                Some(c) => c.clone(),
-            };
-            let mine = match ch.members.get(&me) {
-                None => {
-                    e.actor.push(num("442", &[chn]));
-                    return Some(e);
-                }
-                Some(x) => *x,
-            };
-            if ch.fi && !mine.o {
-                if mine.ge_op() {
-                    // founder/protected without the operator flag: "an operator" is
-                    // ambiguous here; either outcome is accepted
-                    return None;
-                }
-                e.actor.push(num("482", &[chn]));
-                return Some(e);
-            }
-            if ch.members.contains_key(nick) {
-                e.actor.push(num("443", &[nick, chn]));
-                return Some(e);
-            }
+            // every reason for a refusal that applies; the statement does not rank them
+            let mut reasons: Vec<ExpLine> = vec![];
             if !m.users.contains_key(nick) {
-                e.actor.push(num("401", &[nick]));
+                reasons.push(num("401", &[nick]));
+            }
+            match m.chans.get(chn) {
+                None => {
+                    reasons.push(num("403", &[chn]));
+                    reasons.push(num("442", &[chn]));
+                }
+                Some(ch) => {
+                    if ch.members.contains_key(nick) {
+                        reasons.push(num("443", &[nick, chn]));
+                    }
+                    match ch.members.get(&me) {
+                        None => reasons.push(num("442", &[chn])),
+                        Some(mine) => {
+                            if ch.fi && !mine.o {
+                                if mine.ge_op() {
+                                    // founder/protected without the operator flag: "an operator" is
+                                    // ambiguous here; either outcome is accepted
+                                    return None;
+                                }
+                                reasons.push(num("482", &[chn]));
+                            }
+                        }
+                    }
+                }
+            }
+            if !reasons.is_empty() {
+                refuse(&mut e, 1, reasons);
                 return Some(e);
             }
             e.next.users.get_mut(nick).unwrap().invited.insert(chn.to_string());
@@ -1211,10 +1243,17 @@ pub fn step(m: &M, cfg: &SpecCfg, actor: &Actor, line: &str) -> Option<Exp> {
                     e.actor.push(num_any("464").one_of(1));
                 }
                 Some(oc) => {
-                    if oc.password != p[1] {
-                        e.actor.push(num_any("464"));
-                    } else if oc.mask.as_ref().map_or(false, |mk| !glob(mk, &src)) {
-                        e.actor.push(num_any("491"));
+                    let bad_pw = oc.password != p[1];
+                    let bad_mask = oc.mask.as_ref().map_or(false, |mk| !glob(mk, &src));
+                    if bad_pw || bad_mask {
+                        let mut r = vec![];
+                        if bad_pw {
+                            r.push(num_any("464"));
+                        }
+                        if bad_mask {
+                            r.push(num_any("491"));
+                        }
+                        refuse(&mut e, 1, r);
                     } else {
                         e.next.users.get_mut(&me).unwrap().o = true;
                         e.actor.push(num_any("381"));
@@ -1498,7 +1537,7 @@ fn step_mode_channel(m: &M, me: &str, src: &str, p: &[String], mut e: Exp) -> Op
     let chn = p[0].as_str();
     let ch = match m.chans.get(chn) {
         None => {
-            e.actor.push(num("403", &[chn]));
+            refuse(&mut e, 1, vec![num("403", &[chn]), num("442", &[chn])]);
             return Some(e);
         }
         Some(c) => c.clone(),
